@@ -23,7 +23,7 @@ def leName (a b : DEntry) : Bool := decide (a.1 ≤ b.1)
 /-- the order in which `Dotenv` adds the entries: by key -/
 def dotenvOrder (es : List DEntry) : List DEntry := sortBy leName es
 
-def noShell : World := ⟨fun _ _ _ => [], []⟩
+def noShell : World := ⟨fun _ _ _ => [], [], false⟩
 
 /-- templating a list of entries in the order given -/
 def dotenvEval (base : Env) (es : List DEntry) : Env :=
